@@ -58,7 +58,10 @@ def xnpv(rate, values, dates=None):
 
         def _(r):
             e = isinstance(r, str) and Error.errors['#VALUE!']
-            return get_error(r, e) or func(r)
+            res = get_error(r, e) or func(r)
+            if isinstance(res, float) and not np.isfinite(res):
+                res = Error.errors['#DIV/0!' if r == -1 else '#NUM!']
+            return res
 
         rate = text2num(replace_empty(rate))
         return np.vectorize(_, otypes=[object])(rate).view(Array)
